@@ -90,7 +90,7 @@ def explore(ctx):
             c, kind, exp = frames.gen_msg(rng, ch, depth=3, with_expect=True)
             s = frames.frame(c, ch)
             nt = 1 if ch.alternatives > 0 or len(c) > 12 else 0
-            lines.append("dec d%d %s stream=%s chunks=- mode=rest end=eof nt=%d expect=%s|err:eof" % (k, frames.ENV, s.hex(), nt, exp))
+            lines.append("dec d%d %s stream=%s chunks=- mode=rest end=eof nt=%d expect=%s" % (k, frames.ENV, s.hex(), nt, exp if exp.startswith("err:") else exp + "|err:eof"))
             k += 1
     triples, tie = C.run_both(ctx, "TestVerifC02", lines, go_timeout=900)
     stats = dict(enc=sum(1 for l in lines if l.startswith("enc")), dec=sum(1 for l in lines if l.startswith("dec")),
